@@ -45,7 +45,7 @@ def is_twitter_url(url):
     if isinstance(url, SplitResult):
         return bool(re.search(TWITTER_DOMAINS_RE, url.hostname))
 
-    return bool(re.match(TWITTER_URL_RE, url))
+    return bool(re.match(TWITTER_URL_RE, url.lower()))
 
 
 def normalize_screen_name(username):
